@@ -371,4 +371,4 @@ def strata(tier, seed):
     yield Stratum('fitting', fs, 'fit', size=len(fs), chunk=1, bounds={'shapes': len(fshapes), 'members': MEMBERS})
     top = 4 if tier == 'quick' else 8
     ms = [dict(m=m, n=n, seed=seed) for m in range(1, top + 1) for n in range(1, top + 1)]
-    yield Stratum('matrix-factorisations', ms, 'matrix', size=len(ms), chunk=2, bounds={'m,n': '1..%d' % top})
+    yield Stratum('matrix-factorisations', ms, 'matrix', seq=True, size=len(ms), chunk=2, bounds={'m,n': '1..%d' % top})
